@@ -1109,4 +1109,62 @@ func checkCredentialIssueTime(c *km.Ctx, s *km.Sem, rule string) {
 			c.R.AnchorLost(rule, "success return of getUsernameIfKeymasterSigned")
 		}
 	}
+	// a session cookie: the authentication time the handler counts from is the signed iat claim, and a cookie
+	// that is re-signed at a higher level keeps the iat it had (a second factor presented hours after the
+	// password does not restart the 24 hours)
+	const claimsT = KMD + ".authInfoJWT"
+	if fn := c.MustFunc(rule, "cmd/keymasterd", "(*RuntimeState).getAuthInfoFromJWT"); fn != nil {
+		nSt, good := 0, true
+		km.Instrs(fn, func(in ssa.Instruction) {
+			if st, ok := in.(*ssa.Store); ok {
+				if fa, ok := st.Addr.(*ssa.FieldAddr); ok && fieldNameOf(fa) == "IssuedAt" && km.NamedTypeOf(fa.X.Type()) == KMD+".authInfo" {
+					nSt++
+					cl, isC := km.Unwrap(st.Val).(*ssa.Call)
+					if !isC || km.CalleeFull(cl.Common()) != "time.Unix" || !fieldLoadOf(cl.Common().Args[0], claimsT, "IssuedAt") {
+						good = false
+					} else if z, isZ := km.ConstInt(cl.Common().Args[1]); !isZ || z != 0 {
+						good = false
+					}
+				}
+			}
+		})
+		c.R.Add(rule, km.FuncName(fn), "issue time of a session credential", c.P.Pos(fn.Pos()), "authInfo.IssuedAt = time.Unix(claims.iat, 0)", sprintf("stores=%d ok=%v", nSt, good), nSt > 0 && good)
+	}
+	if upd := c.MustFunc(rule, "cmd/keymasterd", "(*RuntimeState).updateAuthJWTWithNewAuthLevel"); upd != nil {
+		seen := map[*ssa.Function]bool{upd: true}
+		work := []*ssa.Function{upd}
+		bad, resigns := "", false
+		for len(work) > 0 {
+			f := work[0]
+			work = work[1:]
+			km.Instrs(f, func(in ssa.Instruction) {
+				if st, ok := in.(*ssa.Store); ok {
+					if fa, ok := st.Addr.(*ssa.FieldAddr); ok && fieldNameOf(fa) == "IssuedAt" && km.NamedTypeOf(fa.X.Type()) == claimsT {
+						if !fieldLoadOf(st.Val, claimsT, "IssuedAt") {
+							bad = "iat written in " + km.FuncName(f) + " at " + posOf(c, in) + ": " + clipS(km.ValStr(st.Val), 60)
+						}
+					}
+				}
+			})
+			for _, ci := range km.CallsIn(f) {
+				if strings.HasSuffix(km.CalleeFull(ci.Common()), "jwt.Builder).Claims") {
+					a := ci.Common().Args
+					if km.NamedTypeOf(km.Unwrap(a[len(a)-1]).Type()) == claimsT {
+						resigns = true
+					}
+				}
+			}
+			for _, g := range c.G.Callees[f] {
+				if g != nil && g.Pkg != nil && strings.HasPrefix(g.Pkg.Pkg.Path(), km.ModPath) && !seen[g] && len(g.Blocks) > 0 {
+					seen[g] = true
+					work = append(work, g)
+				}
+			}
+		}
+		found := sprintf("re-signs session claims=%v; functions on the path=%d", resigns, len(seen))
+		if bad != "" {
+			found = bad
+		}
+		c.R.Add(rule, km.FuncName(upd), "a raised session keeps its authentication time", c.P.Pos(upd.Pos()), "the upgrade path signs session claims and nothing on it writes the iat claim (other than copying it)", found, resigns && bad == "")
+	}
 }
